@@ -477,6 +477,13 @@ func runC11(c *worker.Ctx) {
 			res.Probe("permutation_checked")
 		}
 	}
+	// the same program linted through falco's file resolver over a directory
+	// tree whose module entries are in tape-chosen states
+	if strings.HasPrefix(p.desc, "include:") && c.T.Bool(1, 3) {
+		if !runDisk(c, p, src, mk) {
+			return
+		}
+	}
 	if c.Render {
 		res.Rendering = map[string]any{"program": src, "modules": p.modules, "include_shape": p.desc, "diagnostics": len(base.diags), "map_orders_tried": R + 1, "maps_with_2plus_keys_iterated": multi, "resolve_calls": base.resolve}
 	}
